@@ -734,3 +734,52 @@ Proof.
   - intros x [<-|[<-|[]]]; reflexivity.
   - vm_compute. discriminate.
 Qed.
+
+(* ---------------------------------------------------------------- Validate() more than once *)
+
+Lemma remove_one_length {A} (eqb : A -> A -> bool) x : forall l l',
+  remove_one eqb x l = Some l' -> List.length l = S (List.length l').
+Proof.
+  induction l as [|y t IH]; intros l' E; cbn [remove_one] in E; [discriminate|].
+  destruct (eqb x y).
+  - inversion E; subst. reflexivity.
+  - destruct (remove_one eqb x t) as [t'|] eqn:R; [|discriminate].
+    inversion E; subst. cbn [List.length]. f_equal. apply IH. reflexivity.
+Qed.
+
+Lemma mset_eqb_length {A} (eqb : A -> A -> bool) : forall a b,
+  mset_eqb eqb a b = true -> List.length a = List.length b.
+Proof.
+  induction a as [|x a IH]; intros b E; cbn [mset_eqb] in E.
+  - destruct b; [reflexivity|discriminate].
+  - destruct (remove_one eqb x b) as [b'|] eqn:R; [|discriminate].
+    apply remove_one_length in R. rewrite R. cbn [List.length]. f_equal. apply IH. exact E.
+Qed.
+
+(* every later round has as many diagnostics as the first one *)
+Theorem rounds_same_count first later :
+  prop_C18_rounds first later = true -> forall r, In r later -> List.length r = List.length first.
+Proof.
+  unfold prop_C18_rounds. intros H r Hin.
+  rewrite forallb_forall in H. specialize (H r Hin). symmetry. apply (mset_eqb_length _ _ _ H).
+Qed.
+
+(* a later round that reports what the first one did AND something more (the same warning once
+   again, whatever it is) is refused, wherever that round is among the later ones *)
+Theorem rounds_refuse_additions first extra before after :
+  extra <> [] -> prop_C18_rounds first (before ++ (first ++ extra) :: after) = false.
+Proof.
+  intros Hne. destruct (prop_C18_rounds first (before ++ (first ++ extra) :: after)) eqn:E; [|reflexivity].
+  exfalso. pose proof (rounds_same_count _ _ E (first ++ extra)) as L.
+  assert (Hin : In (first ++ extra) (before ++ (first ++ extra) :: after))
+    by (apply in_or_app; right; left; reflexivity).
+  specialize (L Hin). rewrite app_length in L. destruct extra; [apply Hne; reflexivity|].
+  cbn [List.length] in L. lia.
+Qed.
+
+Lemma rounds_example :
+  prop_C18_rounds demo_round [rev demo_round; demo_round] = true
+  /\ prop_C18_rounds_nodup [rev demo_round; demo_round] = true
+  /\ prop_C18_rounds demo_round [demo_round; demo_round ++ [demo_od 24 10 "route conflict"]] = false
+  /\ prop_C18_rounds_nodup [demo_round ++ [demo_od 24 10 "route conflict"]] = false.
+Proof. repeat split; vm_compute; reflexivity. Qed.
